@@ -47,10 +47,15 @@ class Symbolic(SymSymbol):  # type: ignore[misc]  # pylint: disable=too-many-anc
         cls._sanitize(assumptions, cls)
         obj = SymSymbol.__xnew__(cls, display_name, **assumptions)
         obj.factor = expr
+        obj.wrap_code = wrap_code
+        obj.wrap_latex = wrap_latex
         return obj  # type: ignore[no-any-return]
 
     def _hashable_content(self) -> tuple[Any, ...]:
-        return (*super()._hashable_content(), self.factor)
+        # NOTE: the printers read the wrapping flags, so objects that differ in them must not compare
+        # equal. Otherwise SymPy's cache of constructed expressions hands out the one created first.
+        return (*super()._hashable_content(), self.factor, getattr(self, "wrap_code", False),
+            getattr(self, "wrap_latex", False))
 
     def __init__(
         self,
